@@ -65,12 +65,104 @@ def _awaited_calls(fn: ast.AST) -> set[int]:
     return {id(n.value) for n in ast.walk(fn) if isinstance(n, ast.Await) and isinstance(n.value, ast.Call)}
 
 
+class _Rename(ast.NodeTransformer):
+    def __init__(self, mapping: dict[str, str]):
+        self.mapping = mapping
+
+    def visit_Name(self, n: ast.Name) -> ast.AST:
+        if n.id in self.mapping:
+            return ast.copy_location(ast.Name(id=self.mapping[n.id], ctx=n.ctx), n)
+        return n
+
+
+def _strip_await(v: ast.AST) -> ast.AST:
+    return v.value if isinstance(v, ast.Await) else v
+
+
+def canonical_locals(fn: ast.AST, rules: list) -> ast.AST:
+    """rename local variables by the *role* of their defining expression, so that renaming a local in
+    /repo does not change what is extracted.  `rules(value_node, mapping) -> canonical name | None`."""
+    import copy
+
+    fn = copy.deepcopy(fn)
+    mapping: dict[str, str] = {}
+    for _round in range(4):  # roles may depend on earlier ones (done -> completed)
+        for n in ast.walk(fn):
+            tgt = val = None
+            if isinstance(n, ast.Assign) and len(n.targets) == 1:
+                tgt, val = n.targets[0], n.value
+            elif isinstance(n, ast.AnnAssign) and n.value is not None:
+                tgt, val = n.target, n.value
+            elif isinstance(n, ast.For):
+                tgt, val = n.target, ast.Call(func=ast.Name(id="__iter__", ctx=ast.Load()), args=[n.iter], keywords=[])
+            if tgt is None:
+                continue
+            if isinstance(tgt, ast.Tuple) and tgt.elts and isinstance(tgt.elts[0], ast.Name):
+                first = tgt.elts[0]
+                for rule in rules:
+                    name = rule(_strip_await(val), mapping, True)
+                    if name and first.id not in mapping and first.id != name:
+                        mapping[first.id] = name
+            elif isinstance(tgt, ast.Name):
+                for rule in rules:
+                    name = rule(_strip_await(val), mapping, False)
+                    if name and tgt.id not in mapping and tgt.id != name:
+                        mapping[tgt.id] = name
+    return _Rename(mapping).visit(fn)
+
+
+def _wait_rules() -> list:
+    def canon(v: ast.AST, mapping: dict, tup: bool) -> str | None:
+        inv = {b: a for a, b in mapping.items()}
+
+        def is_name(x: ast.AST, role: str) -> bool:
+            return isinstance(x, ast.Name) and (x.id == role and role not in inv or mapping.get(x.id) == role or (x.id == role))
+
+        if isinstance(v, ast.Call):
+            nm = _call_name(v)
+            if nm == "self._get_or_create_journal" and not tup:
+                return "journal"
+            if nm.endswith(".next_expected_key") and not tup:
+                return "expected_key"
+            if nm == "find_by_key" and not tup:
+                return "target_task"
+            if nm == "asyncio.wait" and tup:
+                return "done"
+            if nm.endswith(".pop") and not tup and isinstance(v.func, ast.Attribute) and is_name(v.func.value, "done"):
+                return "completed"
+            if nm == "get_key" and not tup:
+                return "key"
+            if nm == "all_tasks" and not tup:
+                return "tasks"
+            if nm == "__iter__" and v.args and isinstance(v.args[0], ast.Name) and v.args[0].id == "pending":
+                return "p"
+        if isinstance(v, ast.BinOp) and isinstance(v.op, ast.Add) and isinstance(v.left, ast.Name) and v.left.id == "running" and not tup:
+            return "all_named"
+        return None
+
+    return [canon]
+
+
+def _started_name(fn: ast.AST) -> str | None:
+    """the list that collects `p.start(...)` results"""
+    for n in ast.walk(fn):
+        if isinstance(n, ast.Call) and isinstance(n.func, ast.Attribute) and n.func.attr == "append" and n.args \
+                and isinstance(n.args[0], ast.Call) and _call_name(n.args[0]).endswith(".start") and isinstance(n.func.value, ast.Name):
+            return n.func.value.id
+    return None
+
+
 def wait_sites(fn: ast.AST | None, notes: list[str]) -> tuple[list[str], dict]:
     facts = {"recordAwaitedBeforeFinalReturn": False, "purgeGuard": "<missing>", "replayTimeoutReturnsNone": False,
              "advanceBetweenWaitAndReturn": False, "startYields": False}
     if fn is None:
         notes.append("gen/journal: InternalDBOSAdapter.wait_for_next_task not found")
         return ["<missing>"], facts
+    fn = canonical_locals(fn, _wait_rules())
+    st = _started_name(fn)
+    if st is not None and st != "started":
+        fn = _Rename({st: "started"}).visit(fn)
+    # the journal calls are made on whatever the local is called after canonicalisation: "journal"
     awaited = _awaited_calls(fn)
     sites: list[tuple[int, int, str]] = []
     table = {
@@ -112,6 +204,8 @@ def wait_sites(fn: ast.AST | None, notes: list[str]) -> tuple[list[str], dict]:
         if isinstance(n, ast.If) and any(isinstance(c, ast.Call) and _call_name(c) == "self._purge_orphaned_operations"
                                          for s in n.body for c in ast.walk(s)):
             facts["purgeGuard"] = ast.unparse(n.test)
+            facts["purgeArgIsJournal"] = any(isinstance(c, ast.Call) and _call_name(c) == "self._purge_orphaned_operations"
+                                             and [ast.unparse(a) for a in c.args] == ["journal"] for s in n.body for c in ast.walk(s))
         if isinstance(n, ast.Try):
             has_wait = any(isinstance(c, ast.Call) and _call_name(c) == "asyncio.wait_for" for s in n.body for c in ast.walk(s))
             if has_wait:
@@ -134,9 +228,16 @@ def wait_sites(fn: ast.AST | None, notes: list[str]) -> tuple[list[str], dict]:
 
 
 def record_sites(fn: ast.AST | None, notes: list[str]) -> list[str]:
+    """facts about TaskJournal.record; `append` and `index += 1` commute, so they are reported as a set"""
     if fn is None:
         notes.append("gen/journal: TaskJournal.record not found")
         return ["<missing>"]
+    # the local that is passed as seq_num to insert
+    for n in ast.walk(fn):
+        if isinstance(n, ast.Call) and _call_name(n) == "_crud.insert" and len(n.args) == 3 and isinstance(n.args[1], ast.Name) \
+                and n.args[1].id != "seq_num":
+            fn = _Rename({n.args[1].id: "seq_num"}).visit(__import__("copy").deepcopy(fn))
+            break
     out: list[tuple[int, int, str]] = []
     awaited = _awaited_calls(fn)
     for n in ast.walk(fn):
@@ -152,7 +253,12 @@ def record_sites(fn: ast.AST | None, notes: list[str]) -> list[str]:
                 tag += "!not-awaited"
             out.append((n.lineno, n.col_offset, tag))
     out.sort()
-    return [s[2] for s in out]
+    tags = [s[2] for s in out]
+    seq = [t for t in tags if t.startswith("seq=")]
+    ins = [t for t in tags if t.startswith("insert(")]
+    mid = sorted(t for t in tags if not t.startswith("seq=") and not t.startswith("insert("))
+    ordered = bool(seq and ins and tags and tags[0] == seq[0] and tags[-1] == ins[0])
+    return seq + mid + ins + (["order:seq-first,insert-last"] if ordered else ["order:unexpected"])
 
 
 def small_sites(fn: ast.AST | None, what: str, notes: list[str]) -> str:
@@ -216,6 +322,14 @@ def extract(notes: list[str]) -> dict:
     nt = _parse(NAMED, notes)
     sites, facts = wait_sites(_method(rt, "InternalDBOSAdapter", "wait_for_next_task"), notes)
     purge = _method(rt, "InternalDBOSAdapter", "_purge_orphaned_operations")
+    if purge is not None:
+        def prule(v: ast.AST, mapping: dict, tup: bool) -> str | None:
+            if isinstance(v, ast.Call) and _call_name(v) == "get_local_dbos_context":
+                return "ctx"
+            if isinstance(v, ast.Attribute) and v.attr == "function_id":
+                return "current_fid"
+            return None
+        purge = canonical_locals(purge, [prule])
     purge_src = small_sites(purge, "_purge_orphaned_operations", notes)
     pull_prefix = "<missing>"
     if nt is not None:
